@@ -1,79 +1,79 @@
-(* GENERATED by harness/cmd/astgen from /repo — do not edit. *)
-(* Operation skeletons of the concurrency-relevant functions (see harness/cmd/astgen/ops.go). *)
+(* Model/ExpectedSkel.v — the operation skeletons (astgen's output at the pinned commit) that the
+   transition systems of C17-C20 were written for.  Pinned by lib/pin_expected_skel.py; the
+   theorems C1x_skeleton compare the skeletons regenerated on every run with these. *)
 From Verif Require Import Base.Skel.
 Open Scope string_scope.
 
-Definition conc_skel_ok : bool := true.
-
-Definition gen_ops_NewOnceConstructor : list sk :=
+Definition expected_ops_NewOnceConstructor : list sk :=
   [SPrim (POp "lit-field" "loaders: &sync.Map{}"); SPrim (POp "lit-field" "new: newFunc"); SReturn].
 
-Definition gen_ops_OnceConstructor_Get : list sk :=
+Definition expected_ops_OnceConstructor_Get : list sk :=
   [SPrim (POp "call" "@.loaders.Load"); SPrim (POp "if" "inited"); SIf [SPrim (POp "call" "loaderVal.(func() (v V))"); SReturn] []; SPrim (POp "make-chan" "1"); SPrim (POp "send" "done"); SPrim (POp "func-begin" ""); SPrim (POp "recv" "done"); SPrim (POp "if" "ok"); SIf [SPrim (POp "call" "@.new"); SPrim (POp "close" "done")] []; SReturn; SPrim (POp "func-end" ""); SPrim (POp "call" "@.loaders.LoadOrStore"); SPrim (POp "call" "loaderVal.(func() (v V))"); SReturn].
 
-Definition gen_ops_NewChanSemaphore : list sk :=
+Definition expected_ops_NewChanSemaphore : list sk :=
   [SPrim (POp "make-chan" "maxRes"); SPrim (POp "lit-field" "c: make(chan unit, maxRes)"); SReturn].
 
-Definition gen_ops_ChanSemaphore_Acquire : list sk :=
+Definition expected_ops_ChanSemaphore_Acquire : list sk :=
   [SPrim (POp "select" "send @.c | recv ctx.Done()"); SIf [SReturn] [SIf [SPrim (POp "call" "ctx.Done"); SPrim (POp "call" "ctx.Err"); SReturn] []]].
 
-Definition gen_ops_ChanSemaphore_Release : list sk :=
+Definition expected_ops_ChanSemaphore_Release : list sk :=
   [SPrim (POp "select" "recv @.c | default"); SIf [] [SIf [] []]].
 
-Definition gen_ops_SignalHandler_Handle : list sk :=
+Definition expected_ops_SignalHandler_Handle : list sk :=
   [SPrim (POp "defer" "slogutil.RecoverAndLog"); SPrim (POp "range" "@.signal"); SLoop [SPrim (POp "call" "@.logger.InfoContext"); SPrim (POp "call" "osutil.IsShutdownSignal"); SPrim (POp "if" "osutil.IsShutdownSignal(sig)"); SIf [SPrim (POp "call" "context.WithTimeout"); SPrim (POp "defer" "cancel"); SPrim (POp "call" "@.shutdown"); SReturn] []]].
 
-Definition gen_ops_SignalHandler_shutdownService : list sk :=
+Definition expected_ops_SignalHandler_shutdownService : list sk :=
   [SPrim (POp "defer-func-begin" ""); SPrim (POp "call" "recover"); SPrim (POp "if" "v != nil"); SIf [SPrim (POp "call" "slogutil.PrintRecovered"); SPrim (POp "call" "fmt.Errorf")] []; SPrim (POp "defer-func-end" ""); SPrim (POp "call" "s.Shutdown"); SReturn].
 
-Definition gen_ops_SignalHandler_shutdown : list sk :=
+Definition expected_ops_SignalHandler_shutdown : list sk :=
   [SPrim (POp "call" "@.logger.InfoContext"); SPrim (POp "assign" "status = osutil.ExitCodeSuccess"); SPrim (POp "for" "i >= 0"); SLoop [SPrim (POp "call" "@.shutdownService"); SPrim (POp "if" "err == nil"); SIf [SPrim (POp "branch" "continue")] []; SPrim (POp "call" "@.logger.ErrorContext"); SPrim (POp "assign" "status = osutil.ExitCodeFailure")]; SPrim (POp "call" "@.logger.InfoContext"); SReturn].
 
-Definition gen_ops_NewRefreshWorker : list sk :=
+Definition expected_ops_NewRefreshWorker : list sk :=
   [SPrim (POp "make-chan" "0"); SPrim (POp "lit-field" "done: make(chan unit)"); SPrim (POp "call" "cmp.Or[contextutil.Constructor]"); SPrim (POp "lit-field" "contextCons: cmp.Or[contextutil.Constructor]( c.ContextConstructor, contextutil.EmptyConstruc"); SPrim (POp "call" "cmp.Or[timeutil.ClockAfter]"); SPrim (POp "lit-field" "clock: cmp.Or[timeutil.ClockAfter](c.Clock, timeutil.SystemClock{})"); SPrim (POp "call" "cmp.Or[ErrorHandler]"); SPrim (POp "lit-field" "errHdlr: cmp.Or[ErrorHandler](c.ErrorHandler, IgnoreErrorHandler{})"); SPrim (POp "lit-field" "refr: c.Refresher"); SPrim (POp "lit-field" "schedule: c.Schedule"); SPrim (POp "lit-field" "refrOnShutdown: c.RefreshOnShutdown"); SReturn].
 
-Definition gen_ops_RefreshWorker_Start : list sk :=
+Definition expected_ops_RefreshWorker_Start : list sk :=
   [SPrim (POp "go" "@.refreshInALoop"); SReturn].
 
-Definition gen_ops_RefreshWorker_refreshInALoop : list sk :=
+Definition expected_ops_RefreshWorker_refreshInALoop : list sk :=
   [SPrim (POp "defer" "slogutil.RecoverAndLogDefault"); SPrim (POp "call" "@.clock.Now"); SPrim (POp "call" "@.schedule.UntilNext"); SPrim (POp "for" "true"); SLoop [SPrim (POp "select" "recv @.done | recv @.clock.After(waitDur)"); SIf [SReturn] [SIf [SPrim (POp "call" "@.clock.After"); SPrim (POp "call" "@.refresh"); SPrim (POp "if" "err != nil"); SIf [SPrim (POp "call" "@.errHdlr.Handle")] []; SPrim (POp "call" "@.clock.Now"); SPrim (POp "call" "@.schedule.UntilNext")] []]]].
 
-Definition gen_ops_RefreshWorker_refresh : list sk :=
+Definition expected_ops_RefreshWorker_refresh : list sk :=
   [SPrim (POp "call" "@.contextCons.New"); SPrim (POp "defer" "cancel"); SPrim (POp "call" "@.refr.Refresh"); SReturn].
 
-Definition gen_ops_RefreshWorker_Shutdown : list sk :=
+Definition expected_ops_RefreshWorker_Shutdown : list sk :=
   [SPrim (POp "close" "@.done"); SPrim (POp "if" "@.refrOnShutdown"); SIf [SPrim (POp "call" "@.refresh"); SPrim (POp "if" "err != nil"); SIf [SPrim (POp "call" "fmt.Errorf"); SReturn] []] []; SReturn].
 
-Definition gen_ops_NewJSONHybridHandler : list sk :=
+Definition expected_ops_NewJSONHybridHandler : list sk :=
   [SPrim (POp "call" "json.NewEncoder"); SPrim (POp "call" "enc.SetEscapeHTML"); SPrim (POp "assign" "lvl := slog.LevelInfo"); SPrim (POp "if" "opts != nil && opts.Level != nil"); SIf [SPrim (POp "call" "opts.Level.Level")] []; SPrim (POp "lit-field" "level: lvl"); SPrim (POp "lit-field" "encoder: enc"); SPrim (POp "func-begin" ""); SPrim (POp "call" "newBufferedTextHandler"); SReturn; SPrim (POp "func-end" ""); SPrim (POp "call" "syncutil.NewPool"); SPrim (POp "lit-field" "bufTextPool: syncutil.NewPool(func() (bufTextHdlr *bufferedTextHandler) { return newBufferedT"); SPrim (POp "lit-field" "mu: &sync.Mutex{}"); SPrim (POp "lit-field" "textAttrs: nil"); SReturn].
 
-Definition gen_ops_JSONHybridHandler_Enabled : list sk :=
+Definition expected_ops_JSONHybridHandler_Enabled : list sk :=
   [SPrim (POp "call" "@.level.Level"); SReturn].
 
-Definition gen_ops_JSONHybridHandler_Handle : list sk :=
+Definition expected_ops_JSONHybridHandler_Handle : list sk :=
   [SPrim (POp "call" "@.bufTextPool.Get"); SPrim (POp "defer" "@.bufTextPool.Put"); SPrim (POp "call" "bufTextHdlr.reset"); SPrim (POp "call" "r.AddAttrs"); SPrim (POp "call" "bufTextHdlr.handler.Handle"); SPrim (POp "if" "err != nil"); SIf [SPrim (POp "call" "fmt.Errorf"); SReturn] []; SPrim (POp "call" "bufTextHdlr.buffer.Bytes"); SPrim (POp "call" "byteString"); SPrim (POp "assign" "msg = msg[:len(msg)-1]"); SPrim (POp "call" "newJSONHybridMessage"); SPrim (POp "call" "@.mu.Lock"); SPrim (POp "defer" "@.mu.Unlock"); SPrim (POp "call" "@.encoder.Encode"); SReturn].
 
-Definition gen_ops_newJSONHybridMessage : list sk :=
+Definition expected_ops_newJSONHybridMessage : list sk :=
   [SPrim (POp "assign" "severity := ""NORMAL"""); SPrim (POp "if" "lvl >= slog.LevelError"); SIf [SPrim (POp "assign" "severity = ""ERROR""")] []; SPrim (POp "lit-field" "Severity: severity"); SPrim (POp "lit-field" "Message: msg"); SReturn].
 
-Definition gen_ops_JSONHybridHandler_WithAttrs : list sk :=
+Definition expected_ops_JSONHybridHandler_WithAttrs : list sk :=
   [SPrim (POp "lit-field" "level: @.level"); SPrim (POp "lit-field" "encoder: @.encoder"); SPrim (POp "lit-field" "bufTextPool: @.bufTextPool"); SPrim (POp "lit-field" "mu: @.mu"); SPrim (POp "call" "slices.Clip"); SPrim (POp "append" "slices.Clip(h.textAttrs)"); SPrim (POp "lit-field" "textAttrs: append(slices.Clip(h.textAttrs), attrs...)"); SReturn].
 
-Definition gen_ops_byteString_MarshalText : list sk :=
+Definition expected_ops_byteString_MarshalText : list sk :=
   [SReturn].
 
-Definition gen_ops_newBufferedTextHandler : list sk :=
+Definition expected_ops_newBufferedTextHandler : list sk :=
   [SPrim (POp "call" "bytes.NewBuffer"); SPrim (POp "lit-field" "buffer: buf"); SPrim (POp "call" "slog.NewTextHandler"); SPrim (POp "lit-field" "handler: slog.NewTextHandler(buf, handlerOpts)"); SReturn].
 
-Definition gen_ops_bufferedTextHandler_reset : list sk :=
+Definition expected_ops_bufferedTextHandler_reset : list sk :=
   [SPrim (POp "call" "@.buffer.Reset")].
 
-Definition gen_ops_NewPool : list sk :=
+Definition expected_ops_NewPool : list sk :=
   [SPrim (POp "if" "newFunc == nil"); SIf [SPrim (POp "call" "fmt.Errorf")] []; SPrim (POp "func-begin" ""); SPrim (POp "call" "newFunc"); SReturn; SPrim (POp "func-end" ""); SPrim (POp "lit-field" "pool: &sync.Pool{ New: func() (v any) { return newFunc() }, }"); SReturn].
 
-Definition gen_ops_Pool_Get : list sk :=
+Definition expected_ops_Pool_Get : list sk :=
   [SPrim (POp "call" "@.pool.Get"); SReturn].
 
-Definition gen_ops_Pool_Put : list sk :=
+Definition expected_ops_Pool_Put : list sk :=
   [SPrim (POp "call" "@.pool.Put")].
 
+Close Scope string_scope.
